@@ -318,6 +318,11 @@ class iindex(dict):
             try:
                 if len(values) == 0:
                     values = values.astype(int)  # So bincount doesn't error.
+                elif values.dtype.kind in "iu" and values.max() > max(
+                    1 << 16, 8 * values.size
+                ):
+                    # bincount allocates max(values) + 1 counters.
+                    raise ValueError("values too sparse for bincount")
                 bcounts = numpy.bincount(values.flat)
                 distinct_values = bcounts.nonzero()[0].tolist()
                 counts = {i: bcounts[i].item() for i in distinct_values}
